@@ -8,6 +8,7 @@ import (
 	"math"
 	"strings"
 
+	"github.com/NethermindEth/juno/core"
 	"github.com/NethermindEth/juno/core/felt"
 	"verif/harness/lib"
 )
@@ -357,23 +358,25 @@ func (w *world) blockIDs(r *lib.RNG) []*blockID {
 	add := func(b blockID) { ids = append(ids, &b) }
 	if h > 0 {
 		n := uint64(r.Intn(h))
-		add(blockID{tag: "number", num: n, kind: "num-existing"})
-		add(blockID{tag: "number", num: uint64(h - 1), kind: "num-head"})
+		add(blockID{tag: "number", num: n, kind: w.regionKind(int(n), "num-existing", false)})
+		add(blockID{tag: "number", num: uint64(h - 1), kind: w.regionKind(h-1, "num-head", false)})
 		if r.Bool() {
-			add(blockID{tag: "number", num: 0, kind: "num-existing"})
+			add(blockID{tag: "number", num: 0, kind: w.regionKind(0, "num-existing", false)})
 		}
 		m := r.Intn(h)
-		add(blockID{tag: "hash", hash: *w.g.Bundles[m].Block.Hash, kind: "hash-existing"})
+		add(blockID{tag: "hash", hash: *w.g.Bundles[m].Block.Hash, kind: w.regionKind(m, "hash-existing", true)})
 		if r.Chance(1, 3) {
-			add(blockID{tag: "hash", hash: *w.g.Bundles[h-1].Block.Hash, kind: "hash-existing"})
+			add(blockID{tag: "hash", hash: *w.g.Bundles[h-1].Block.Hash, kind: w.regionKind(h-1, "hash-existing", true)})
 		}
 		if w.l1 != nil && int(*w.l1) < h {
 			// the boundary of finality: the block the L1 head points at, and the one after it
-			add(blockID{tag: "number", num: *w.l1, kind: "num-l1"})
+			add(blockID{tag: "number", num: *w.l1, kind: w.regionKind(int(*w.l1), "num-l1", false)})
 			if int(*w.l1)+1 < h {
-				add(blockID{tag: "number", num: *w.l1 + 1, kind: "num-l1"})
+				add(blockID{tag: "number", num: *w.l1 + 1, kind: w.regionKind(int(*w.l1)+1, "num-l1", false)})
 			}
 		}
+		// a pruned node: every region around the floor, by number and by hash
+		ids = append(ids, w.prunedIDs(r)...)
 	}
 	missing := []uint64{uint64(h), uint64(h) + 1, uint64(h) + uint64(1+r.Intn(50)), 1 << 32, math.MaxInt64, math.MaxUint64}
 	add(blockID{tag: "number", num: lib.Pick(r, missing), kind: "num-missing"})
@@ -405,6 +408,9 @@ func (w *world) blockIDs(r *lib.RNG) []*blockID {
 	if h > 0 {
 		// both members: block_hash wins
 		m := r.Intn(h)
+		if w.prunedBelow > 0 {
+			m = w.prunedBelow + r.Intn(h-w.prunedBelow)
+		}
 		add(blockID{tag: "both", hash: *w.g.Bundles[m].Block.Hash, num: uint64(h + 3), kind: "obj-both"})
 	}
 	return ids
@@ -530,6 +536,18 @@ func (w *world) round(r *lib.RNG, pairsPerID, txPerKind int) []*query {
 	for i := 0; i < txPerKind && len(onchain) > 0; i++ {
 		hashes = append(hashes, th{lib.Pick(r, onchain), "tx-existing"})
 	}
+	for n := 0; n < w.prunedBelow && n < w.height(); n++ {
+		// transactions of pruned blocks: of the oldest ones, of the one right below the floor
+		if n == 0 || n >= w.prunedBelow-2 {
+			for _, tx := range w.g.Bundles[n].Block.Transactions {
+				hashes = append(hashes, th{*tx.Hash(), "tx-pruned"})
+				break
+			}
+		}
+	}
+	for i := range hashes {
+		hashes[i].kind = w.txKindOf(&hashes[i].h, hashes[i].kind)
+	}
 	if w.l1 != nil && int(*w.l1) < w.height() {
 		// transactions of the block at the finality boundary and of the one after it
 		for _, n := range []int{int(*w.l1), int(*w.l1) + 1} {
@@ -556,7 +574,7 @@ func (w *world) round(r *lib.RNG, pairsPerID, txPerKind int) []*query {
 	}
 	for _, h := range hashes {
 		for _, m := range []string{"txByHash", "receipt", "txStatus"} {
-			add(query{method: m, txHash: h.h, sub: h.kind})
+			add(query{method: m, txHash: h.h, sub: w.txKindOf(&h.h, h.kind)})
 		}
 	}
 
@@ -565,7 +583,8 @@ func (w *world) round(r *lib.RNG, pairsPerID, txPerKind int) []*query {
 	{
 		var subjects []th
 		if len(onchain) > 0 {
-			subjects = append(subjects, th{lib.Pick(r, onchain), "tx-existing"})
+			sj := lib.Pick(r, onchain)
+			subjects = append(subjects, th{sj, w.txKindOf(&sj, "tx-existing")})
 		}
 		subjects = append(subjects, th{*new(felt.Felt).SetBytes(r.Bytes(31)), "tx-missing"})
 		for i := range w.revertedTxs {
@@ -587,7 +606,8 @@ func (w *world) round(r *lib.RNG, pairsPerID, txPerKind int) []*query {
 		f := feederSpec{mode: "says", fin: lib.Pick(r, feederFins), exec: lib.Pick(r, feederExecs)}
 		add(query{method: "txStatus", txHash: w.freshSubmitHash(), sub: "tx-missing", submitted: true, feeder: &f})
 		if len(onchain) > 0 && r.Chance(1, 3) {
-			add(query{method: "txStatus", txHash: lib.Pick(r, onchain), sub: "tx-existing", submitted: true})
+			sj := lib.Pick(r, onchain)
+			add(query{method: "txStatus", txHash: sj, sub: w.txKindOf(&sj, "tx-existing"), submitted: true})
 		}
 	}
 
@@ -618,7 +638,8 @@ func (w *world) round(r *lib.RNG, pairsPerID, txPerKind int) []*query {
 		}
 		if len(onchain) > 0 {
 			fc := lib.Pick(r, cases)
-			add(query{method: "txByHash", txHash: lib.Pick(r, onchain), sub: "tx-existing", flags: &fc})
+			sj := lib.Pick(r, onchain)
+			add(query{method: "txByHash", txHash: sj, sub: w.txKindOf(&sj, "tx-existing"), flags: &fc})
 		}
 	}
 
@@ -738,7 +759,7 @@ func (w *world) warm(r *lib.RNG) []*query {
 	addrs := w.addrUniverse()
 	for n := h - 1; n >= 0 && n >= h-3; n-- {
 		b := w.g.Bundles[n]
-		ids := []*blockID{{tag: "number", num: uint64(n), kind: "num-existing"}, {tag: "hash", hash: *b.Block.Hash, kind: "hash-existing"}}
+		ids := []*blockID{{tag: "number", num: uint64(n), kind: w.regionKind(n, "num-existing", false)}, {tag: "hash", hash: *b.Block.Hash, kind: w.regionKind(n, "hash-existing", true)}}
 		if n == h-1 {
 			ids = append(ids, &blockID{tag: "latest", kind: "latest"})
 		}
@@ -766,13 +787,24 @@ func (w *world) warm(r *lib.RNG) []*query {
 		}
 		for _, tx := range b.Block.Transactions {
 			for _, m := range []string{"txByHash", "receipt", "txStatus"} {
-				add(query{method: m, txHash: *tx.Hash(), sub: "tx-existing"})
+				add(query{method: m, txHash: *tx.Hash(), sub: w.txKindOf(tx.Hash(), "tx-existing")})
 			}
 		}
 	}
 	add(query{method: "blockNumber"})
 	add(query{method: "blockHashAndNumber"})
 	return qs
+}
+
+// txKindOf: a transaction of a pruned block is its own kind of argument.
+func (w *world) txKindOf(h *felt.Felt, base string) string {
+	if w.prunedBelow == 0 {
+		return base
+	}
+	if bn, _, ok := w.findTx(h); ok && bn < w.prunedBelow {
+		return "tx-pruned"
+	}
+	return base
 }
 
 // exhaustive: the whole space of a small chain — every block number 0..height+1, every hash the
@@ -787,8 +819,22 @@ func (w *world) exhaustive() []*query {
 		qs = append(qs, &q)
 	}
 	h := w.height()
+	// on a long chain (the pruned-node histories) the block numbers / hashes are restricted to the
+	// neighbourhoods of every boundary: genesis, the header window below the floor, the floor, the
+	// width boundary of the CBOR-encoded block number (23 | 24), the head
+	near := func(n int) bool {
+		if h <= 12 {
+			return true
+		}
+		e := w.prunedBelow
+		lag := e - int(core.BlockHashLag)
+		return n <= 1 || (n >= lag-2 && n <= lag+1) || (n >= e-2 && n <= e+1) || (n >= 22 && n <= 25) || n >= h-2
+	}
 	var ids []*blockID
 	for n := 0; n <= h+1; n++ {
+		if !near(n) {
+			continue
+		}
 		kind := "num-existing"
 		switch {
 		case n >= h:
@@ -798,10 +844,16 @@ func (w *world) exhaustive() []*query {
 		case w.l1 != nil && (uint64(n) == *w.l1 || uint64(n) == *w.l1+1):
 			kind = "num-l1"
 		}
+		if n < h {
+			kind = w.regionKind(n, kind, false)
+		}
 		ids = append(ids, &blockID{tag: "number", num: uint64(n), kind: kind})
 	}
-	for _, b := range w.g.Bundles {
-		ids = append(ids, &blockID{tag: "hash", hash: *b.Block.Hash, kind: "hash-existing"})
+	for n, b := range w.g.Bundles {
+		if !near(n) {
+			continue
+		}
+		ids = append(ids, &blockID{tag: "hash", hash: *b.Block.Hash, kind: w.regionKind(n, "hash-existing", true)})
 	}
 	for i := range w.revertedBlocks {
 		if !w.onChain(&w.revertedBlocks[i]) {
@@ -817,7 +869,7 @@ func (w *world) exhaustive() []*query {
 		ids = append(ids, &blockID{tag: "other", num: uint64(i), kind: "not-an-id"})
 	}
 	if h > 0 {
-		ids = append(ids, &blockID{tag: "both", hash: *w.g.Bundles[0].Block.Hash, num: uint64(h - 1), kind: "obj-both"})
+		ids = append(ids, &blockID{tag: "both", hash: *w.g.Bundles[w.prunedBelow].Block.Hash, num: uint64(h - 1), kind: "obj-both"})
 	}
 	if !w.preConfirmed {
 		ids = append(ids, &blockID{tag: "str", str: "pre_confirmed", kind: "tag-pre_confirmed"})
@@ -885,7 +937,7 @@ func (w *world) exhaustive() []*query {
 	for _, b := range w.g.Bundles {
 		for _, tx := range b.Block.Transactions {
 			for _, m := range []string{"txByHash", "receipt", "txStatus"} {
-				add(query{method: m, txHash: *tx.Hash(), sub: "tx-existing"})
+				add(query{method: m, txHash: *tx.Hash(), sub: w.txKindOf(tx.Hash(), "tx-existing")})
 			}
 		}
 	}
@@ -907,8 +959,8 @@ func (w *world) exhaustive() []*query {
 			kind string
 		}
 		subjects := []th{{*lib.F(0x123457), "tx-missing"}}
-		for _, b := range w.g.Bundles {
-			if len(b.Block.Transactions) > 0 {
+		for n, b := range w.g.Bundles {
+			if len(b.Block.Transactions) > 0 && n >= w.prunedBelow {
 				subjects = append(subjects, th{*b.Block.Transactions[0].Hash(), "tx-existing"})
 				break
 			}
@@ -916,6 +968,13 @@ func (w *world) exhaustive() []*query {
 		for i := range w.revertedTxs {
 			if !w.txOnChain(&w.revertedTxs[i]) {
 				subjects = append(subjects, th{w.revertedTxs[i], "tx-reverted"})
+				break
+			}
+		}
+		for n := w.prunedBelow - 1; n >= 0; n-- {
+			// the gateway's answers for a transaction the node has pruned (newest pruned block with one)
+			if n < w.height() && len(w.g.Bundles[n].Block.Transactions) > 0 {
+				subjects = append(subjects, th{*w.g.Bundles[n].Block.Transactions[0].Hash(), "tx-pruned"})
 				break
 			}
 		}
@@ -947,7 +1006,7 @@ func (w *world) exhaustive() []*query {
 	// every shape of response_flags x every method that has the parameter (and two that do not) x
 	// an id that resolves, one that does not, one that is no id
 	{
-		fids := []*blockID{{tag: "latest", kind: "latest"}, {tag: "number", num: 0, kind: "num-existing"},
+		fids := []*blockID{{tag: "latest", kind: "latest"}, {tag: "number", num: uint64(w.prunedBelow), kind: w.regionKind(w.prunedBelow, "num-existing", false)},
 			{tag: "hash", hash: *lib.F(0xabcdef), kind: "hash-missing"}, {tag: "str", str: "earliest", kind: "tag-unknown"}}
 		if h == 0 {
 			fids[1].kind = "num-missing"
@@ -967,8 +1026,8 @@ func (w *world) exhaustive() []*query {
 				add(query{method: "storage", id: id, addr: a, key: k, sub: addrKind(&a), flags: &fc})
 				add(query{method: "nonce", id: id, addr: a, sub: addrKind(&a), flags: &fc})
 			}
-			for _, b := range w.g.Bundles {
-				if len(b.Block.Transactions) > 0 {
+			for n, b := range w.g.Bundles {
+				if len(b.Block.Transactions) > 0 && n >= w.prunedBelow {
 					add(query{method: "txByHash", txHash: *b.Block.Transactions[0].Hash(), sub: "tx-existing", flags: &fc})
 					break
 				}
